@@ -140,19 +140,62 @@ theorem runFile_held_wait (fuel : Nat) (s : State) (prio now : Nat) (ticks : Lis
           · exact Or.inr (Or.inl e)
         · exact Or.inl ⟨c.key, _, _, rfl⟩
 
+/-- a slot that takes the next waiting object at once: empty, or holding a FINISHED transfer (stopped, or all packets
+    sent) whose pacing gate is open - `SenderSession::run` releases it and calls `get_next` in the same poll -/
+def Avail (s : State) (now : Nat) (cur : Option Cur) : Prop :=
+  cur = none ∨ ∃ c g, cur = some c ∧ getF s.objs c.key = some g ∧ gateBlocked g now = false ∧
+    (c.enc.stopped = true ∨ g.nPk ≤ c.enc.sent)
+
+/-- a finished transfer in the slot: it is released and the waiting object started in the same poll -/
+theorem runFile_finished_wait (fuel : Nat) (s : State) (prio now : Nat) (ticks : List (Nat × Nat)) (t : Nat)
+    (f : FileDesc) (c : Cur) (g : FileDesc) (h : WaitReady s prio now t f) (hc : c.key ∉ s.queue)
+    (hg : getF s.objs c.key = some g) (hgate : gateBlocked g now = false)
+    (hfin : c.enc.stopped = true ∨ g.nPk ≤ c.enc.sent) :
+    (∃ t' i b, (runFile (fuel + 2) s prio (some c) now ticks).2.2 = Out.pkt prio t' i b) ∨
+    ((runFile (fuel + 2) s prio (some c) now ticks).2.2 = Out.none ∧
+      (runFile (fuel + 2) s prio (some c) now ticks).1.fdtQueue ≠ []) := by
+  have henc : ∀ force, (encRead g.nSym c.enc force).1 = none := by
+    intro force
+    rw [encRead_eq]
+    rcases hfin with h1 | h1
+    · rw [if_pos h1]
+    · by_cases hs : c.enc.stopped = true
+      · rw [if_pos hs]
+      · rw [if_neg hs]
+        have : ¬ c.enc.sent < (if g.nSym = 0 then 1 else g.nSym) := by
+          have e : g.nPk = (if g.nSym = 0 then 1 else g.nSym) := rfl
+          rw [← e]; omega
+        rw [if_neg this]
+  unfold runFile
+  simp only []
+  split
+  · rename_i hq
+    refine Or.inr ⟨rfl, ?_⟩
+    intro e; rw [e] at hq; simp at hq
+  · simp only [hg, hgate, Bool.false_eq_true, if_false]
+    have he := henc (canStop g && !s.files.contains c.key)
+    generalize encRead g.nSym c.enc (canStop g && !s.files.contains c.key) = r at he
+    obtain ⟨r1, r2⟩ := r
+    simp only [] at he
+    subst he
+    simp only []
+    rcases runFile_free fuel (transferDoneFile s c.key now) prio now ticks t f (h.done c.key hc) with ⟨i, b, e⟩ | e
+    · exact Or.inl ⟨t, i, b, e⟩
+    · exact Or.inr e
+
 /-- the poll of a priority queue with a free slot and a ready waiting object -/
 theorem readQueue_wait (now : Nat) (ticks : List (Nat × Nat)) (t : Nat) (f : FileDesc) (j n : Nat) (hj : j < n) :
-    ∀ steps (s : State) (q : QSess), WaitReady s q.prio now t f → q.slots.length = n → q.index < n →
-    q.slots[j]? = some none →
+    ∀ steps (s : State) (q : QSess) (curj : Option Cur), WaitReady s q.prio now t f → q.slots.length = n → q.index < n →
+    q.slots[j]? = some curj → Avail s now curj →
     (∀ (i : Nat) (c0 : Cur), q.slots[i]? = some (some c0) → c0.key ∉ s.queue) →
     rrDist q.index j n < steps →
     (∃ t' i b, (readQueue steps s q now ticks).2.2 = Out.pkt q.prio t' i b) ∨
     ((readQueue steps s q now ticks).2.2 = Out.none ∧ (readQueue steps s q now ticks).1.fdtQueue ≠ []) := by
   intro steps
   induction steps with
-  | zero => intro s q _ _ _ _ _ hd; exact absurd hd (Nat.not_lt_zero _)
+  | zero => intro s q _ _ _ _ _ _ _ hd; exact absurd hd (Nat.not_lt_zero _)
   | succ m ih =>
-    intro s q h hn hidx hjs hdis hd
+    intro s q curj h hn hidx hjs hav hdis hd
     unfold readQueue
     split
     · rename_i hnone
@@ -176,12 +219,23 @@ theorem readQueue_wait (now : Nat) (ticks : List (Nat × Nat)) (t : Nat) (f : Fi
         | some c =>
           have e : runFuel = 2 + 2 := rfl
           rw [e]
-          have hne : q.index ≠ j := by
-            intro e2; rw [e2, hjs] at hcur; cases hcur
-          rcases runFile_held_wait 2 s q.prio now ticks t f c h (hdis q.index c hcur) with e1 | e1 | ⟨e1, e2, e3⟩
-          · exact Or.inl e1
-          · exact Or.inr (Or.inl e1)
-          · exact Or.inr (Or.inr ⟨e1, e2, e3, hne⟩)
+          by_cases hij : q.index = j
+          · -- the available slot holds a finished transfer
+            rw [hij, hjs] at hcur
+            simp only [Option.some.injEq] at hcur
+            subst hcur
+            rcases hav with h0 | ⟨c', g, h1, h2, h3, h4⟩
+            · cases h0
+            · simp only [Option.some.injEq] at h1
+              subst h1
+              rcases runFile_finished_wait 2 s q.prio now ticks t f c g h
+                  (hdis j c (by rw [hjs])) h2 h3 h4 with e1 | e1
+              · exact Or.inl e1
+              · exact Or.inr (Or.inl e1)
+          · rcases runFile_held_wait 2 s q.prio now ticks t f c h (hdis q.index c hcur) with e1 | e1 | ⟨e1, e2, e3⟩
+            · exact Or.inl e1
+            · exact Or.inr (Or.inl e1)
+            · exact Or.inr (Or.inr ⟨e1, e2, e3, hij⟩)
       generalize runFile runFuel s q.prio cur now ticks = r at hslot
       obtain ⟨s', cur', out⟩ := r
       simp only [] at hslot ⊢
@@ -196,9 +250,9 @@ theorem readQueue_wait (now : Nat) (ticks : List (Nat × Nat)) (t : Nat) (f : Fi
           unfold rrDist
           rw [hn]
           split <;> split <;> split <;> omega
-        exact ih s' { q with slots := q.slots.set q.index cur', index := (if q.index + 1 = q.slots.length then 0 else q.index + 1) }
+        exact ih s' { q with slots := q.slots.set q.index cur', index := (if q.index + 1 = q.slots.length then 0 else q.index + 1) } curj
           h (by simp [hn]) (by show (if q.index + 1 = q.slots.length then 0 else q.index + 1) < n; split <;> omega)
-          (by show (q.slots.set q.index cur')[j]? = _; rw [List.getElem?_set_ne hne]; exact hjs)
+          (by show (q.slots.set q.index cur')[j]? = _; rw [List.getElem?_set_ne hne]; exact hjs) hav
           (by
             intro i c0 hget
             have hget' : (q.slots.set q.index cur')[i]? = some (some c0) := hget
